@@ -557,9 +557,7 @@ class FnTr(object):
         nxt = lambda: self.block(rest, k, ctx)     # noqa
         if isinstance(s, ast.Pass) or (isinstance(s, ast.Expr) and isinstance(s.value, ast.Constant) and isinstance(s.value.value, str)):
             return nxt()
-        if isinstance(s, ast.Return):
-            if rest:
-                refuse(rest[0], "statement after return")
+        if isinstance(s, ast.Return):       # (statements after it in the same block are unreachable)
             if self.sig["ret"] == U:
                 if s.value is not None:
                     refuse(s, "a procedure returns a value")
@@ -568,11 +566,11 @@ class FnTr(object):
                 refuse(s, "return without a value")
             return ctx.ret(self.expr_of(s.value, self.sig["ret"]))
         if isinstance(s, ast.Break):
-            if rest or ctx.brk is None:
+            if ctx.brk is None:
                 refuse(s, "break here")
             return ctx.brk()
         if isinstance(s, ast.Continue):
-            if rest or ctx.nxt is None:
+            if ctx.nxt is None:
                 refuse(s, "continue here")
             return ctx.nxt()
         if isinstance(s, ast.Assign):
